@@ -209,9 +209,22 @@ func runC11(m *Sim) {
 		m.NoteState(len(st.Servers), len(bannedState), len(bannedFile), RoleOf(st.PrimaryServer))
 	}
 
+	startupChoice := func(site string) {
+		st := cl.C.VerifState()
+		usable := false
+		for _, e := range st.Servers {
+			if !e.Banned {
+				usable = true
+			}
+		}
+		if e, ok := st.Servers[st.PrimaryServer]; usable && (!ok || e.Banned) {
+			m.Fail("C11.banned-choice", site, "at start-up the client chose %s as its primary server, which it knows to be banned (known=%v), although a non-banned server is configured", RoleOf(st.PrimaryServer), ok)
+		}
+	}
 	if err := cl.Start(); err != nil {
 		m.Fail("C11.start", "client", "client does not start: %v", err)
 	}
+	startupChoice("startup")
 	slot := start
 	ticks := 100 + m.C.Int("ticks", 300)
 	for i := 0; i < ticks; i++ {
@@ -227,6 +240,7 @@ func runC11(m *Sim) {
 			}
 			m.Probe("c11.restart")
 			monotone("restart")
+			startupChoice("restart")
 		}
 		w.Advance(62 * time.Millisecond)
 		w.PumpUDP()
